@@ -7,6 +7,7 @@ package verifhook
 
 import (
 	"context"
+	"sync"
 	"sync/atomic"
 )
 
@@ -16,6 +17,7 @@ type Handler interface {
 	Yield(ctx context.Context, point string)
 	Await(ctx context.Context, point string, ch <-chan struct{})
 	Expose(ctx context.Context, name string, v any)
+	BeforeLock(ctx context.Context, name string, mu *sync.Mutex)
 }
 
 type holder struct{ h Handler }
@@ -49,5 +51,15 @@ func Await(ctx context.Context, point string, ch <-chan struct{}) {
 func Expose(ctx context.Context, name string, v any) {
 	if c := current.Load(); c != nil {
 		c.h.Expose(ctx, name, v)
+	}
+}
+
+// BeforeLock is placed just before mu.Lock() where the critical section
+// contains Yield points: a scheduler that runs one goroutine at a time can
+// keep the caller parked until the mutex is free instead of letting it block
+// inside Lock.
+func BeforeLock(ctx context.Context, name string, mu *sync.Mutex) {
+	if c := current.Load(); c != nil {
+		c.h.BeforeLock(ctx, name, mu)
 	}
 }
